@@ -13,6 +13,7 @@ CONSTANTS
   PertKinds = {}
   NumSyss = {}
   RrefFlags = {}
+  Options = {}
   MaxEvals = 3
 INVARIANT Verdict
 INVARIANT BackwardConstructionIsEquilibrium
